@@ -278,6 +278,14 @@ impl<T: BFlavor> BModel<T> {
             acts.push(BAct::Qual("checksum".to_owned(), v.to_owned()));
         }
         acts.push(BAct::Qual("CheckSum".to_owned(), "a:00".to_owned()));
+        // two keys that order differently under another case folding ('_' sorts between the upper-case
+        // and the lower-case letters), set and removed in either letter case
+        acts.push(BAct::Qual("k_".to_owned(), "1".to_owned()));
+        acts.push(BAct::Qual("KZ".to_owned(), "2".to_owned()));
+        acts.push(BAct::Qual("kz".to_owned(), "3".to_owned()));
+        acts.push(BAct::Qual("K_".to_owned(), "4".to_owned()));
+        acts.push(BAct::NoQual("K_".to_owned()));
+        acts.push(BAct::NoQual("kZ".to_owned()));
         acts.push(BAct::Qual("".to_owned(), "a".to_owned()));
         acts.push(BAct::Qual("!".to_owned(), "a".to_owned()));
         for k in ["k", "K", "checksum", "", "l"] {
@@ -334,6 +342,10 @@ impl<T: BFlavor> BModel<T> {
             q("checksum", "B:ff,a:0A"),
             q("checksum", "zz"),
             q("CheckSum", "a:00"),
+            q("k_", "1"),
+            q("KZ", "2"),
+            q("kz", "3"),
+            BAct::NoQual("K_".into()),
             BAct::NoQual("K".into()),
             BAct::NoQual("checksum".into()),
             BAct::NoQuals,
